@@ -5,6 +5,7 @@ import (
 	"fmt"
 	"io"
 	"os"
+	"reflect"
 	"runtime"
 	"strings"
 	"testing"
@@ -97,3 +98,27 @@ func envInt(name string, def int) int {
 // shard0 is true in the first shard of a job: exhaustive sweeps and directed
 // regressions run there only, so that merged counts are not inflated.
 func shard0() bool { return envInt("VERIF_SHARD", 0) == 0 }
+
+// commonHeader / setXidReflect: set Header.Xid of any library message through
+// reflection (every top-level kind embeds or is a common.Header).
+type commonHeader = struct{}
+
+func setXidReflect(m util.Message, xid uint32) {
+	v := reflect.ValueOf(m)
+	if v.Kind() != reflect.Ptr {
+		return
+	}
+	e := v.Elem()
+	if e.Kind() != reflect.Struct {
+		return
+	}
+	if f := e.FieldByName("Xid"); f.IsValid() && f.CanSet() && f.Kind() == reflect.Uint32 {
+		f.SetUint(uint64(xid))
+		return
+	}
+	if h := e.FieldByName("Header"); h.IsValid() && h.Kind() == reflect.Struct {
+		if f := h.FieldByName("Xid"); f.IsValid() && f.CanSet() {
+			f.SetUint(uint64(xid))
+		}
+	}
+}
